@@ -915,6 +915,52 @@ def r07n(ctx, run):
         raise LookupError("operator / type pairs evaluated: %d" % n)
 
 
+def r07p(ctx, run):
+    """`Ty::Unknown` means "no type, and say nothing more: an error was already reported".  const_ty (what does this expression denote as a TYPE?) answering
+    Unknown for an expression that is simply not a type, without a diagnostic, leaves a program without errors whose annotation has no type - the code
+    generator then panics (`x : comptime { 5 } = 3;`).  Path rule over every arm of const_ty's per-kind table: each path that yields `Ty::Unknown.into()`
+    has passed a report (report_non_type / diagnostics.push), or a test that something already is unknown / unsafe to compile (an earlier error)."""
+    import paths
+    fn = ctx.syn.fn("GlobalInferenceCtx::const_ty", "hir_ty/src/globals.rs")
+    tables = [m for m in synq.matches_on(fn.body) if canon(m["e"]) == "&self.bodies[expr]" and len(m["arms"]) >= 8]
+    if len(tables) != 1:
+        raise LookupError("the per-kind table of const_ty: %d" % len(tables))
+    yields = [0]
+    for h, p_, g, b, arm in synq.match_table(tables[0]):
+        kind = synq.last_seg(h) if h else canon(p_)
+        silent = []
+
+        def step(node, st, silent=silent):
+            ev, pending = st
+            k = node.get("k")
+            if k == "mcall" and node["m"] == "into" and canon(node["r"]) == "Ty::Unknown":
+                yields[0] += 1
+                if not ev:
+                    silent.append(node["ln"])
+                return (ev, False)
+            ev = ev or pending
+            pending = False
+            if k == "path" and node["p"] == "Ty::Unknown":
+                return (ev, True)
+            # reports: report_non_type, a pushed diagnostic, expect_match (reports when it answers false); earlier errors: is_unknown, is_safe_to_compile, and
+            # get_const answering "not const" (it reports, or says Unknown because something was reported: R07.g)
+            if k == "mcall" and (node["m"] in ("report_non_type", "is_unknown", "is_safe_to_compile", "expect_match", "get_const") or (node["m"] == "push" and canon(node["r"]).endswith("diagnostics"))):
+                return (True, False)
+            if k == "path" and node["p"] in ("Expr::Missing",):
+                return (True, False)
+            return (ev, pending)
+        body = b if b.get("k") == "block" else {"k": "block", "s": [{"k": "expr", "e": b}], "ln": arm["ln"]}
+        init = (kind == "Missing", False)      # a Missing expression is the parser's error
+        paths.run(body, init, step)
+        lines = sorted(set(silent))
+        run.check(not lines, fn.site(arm["ln"]), "Expr::%s: every Unknown answer follows a report or an earlier error" % kind, fn.qual, "silent-unknown:" + kind, fn.file,
+                  lines[0] if lines else arm["ln"],
+                  "const_ty answers Ty::Unknown for an Expr::%s (line %s) on a path without any report and without a test that an error already exists: an expression that "
+                  "is not a type is accepted silently as an annotation and the code generator meets an untyped expression" % (kind, ", ".join(map(str, lines))))
+    if yields[0] < 8:
+        raise LookupError("Ty::Unknown answers in const_ty's table: %d" % yields[0])
+
+
 def rules(ctx):
     return [
         Rule("R07.a", "the error gate (both diagnostic sources, exit 1) and the unsafe assert dominate every code-generation call; comptime evaluation is guarded", 12, r07a),
@@ -928,6 +974,7 @@ def rules(ctx):
         Rule("R07.m", "an accepted enum declaration has pairwise distinct discriminants (no diagnostic exists for a clash and the code generator panics on one; shared with C11 R11.d)", 2, r07m),
         Rule("R07.o", "arms of a value-yielding switch that always jump make no jump to the exit block (Cranelift's verifier rejects it; shared with C11 R11.h)", 4, r07o),
         Rule("R07.n", "weak-type replacement gives the operands of a binary operator a new type only where can_perform allows the operator on it (Binary arm of replace_weak_tys evaluated)", 20, r07n),
+        Rule("R07.p", "const_ty answers Unknown only after a report or an earlier error, on every path of every arm (path rule)", 8, r07p),
         Rule("R07.j", "nested bodies (lambda, comptime) set the enclosing params, scopes and labels aside: a jump to an outer label is reported, not compiled (shared with C05 R05.d)", 4, r07j),
         Rule("R07.g", "get_const's classification per expression kind: Unknown (= stay silent) only where an error was already reported (shared with C15 R15.b)", 60, r07g),
         Rule("R07.f", "the common type of a branch that always jumps and any other branch never wraps `noeval` in a constructor (no code-generator support, no diagnostic)", 60, r07f),
